@@ -2,6 +2,9 @@ package main
 
 import (
 	"bufio"
+	"context"
+	"os/exec"
+	"sync"
 	"encoding/json"
 	"fmt"
 	"io"
@@ -437,6 +440,28 @@ func genC03(o *Out, rng *rand.Rand, tier string) {
 		}
 		trySmall(in, "small-entry-points")
 	}
+	// (ii'') concurrent use: several goroutines decode the same datagrams - each its own copy, into its own value - and
+	// apply every read-only operation to their values at the same time (a server's goroutine-per-packet handlers do
+	// exactly that). Run in a child process: the runtime's "concurrent map writes" is fatal, not a panic.
+	{
+		var items []map[string]any
+		add := func(entry string, ws [][]byte, max int) {
+			for i, w := range ws {
+				if i >= max {
+					break
+				}
+				if len(w) <= 2048 {
+					items = append(items, map[string]any{"entry": entry, "in": B(w)})
+				}
+			}
+		}
+		add("v4", z4, 1000)
+		add("v6", z6, 1000)
+		add("v4", v4c[len(z4):], 150)
+		add("v6", v6c[len(z6):], 300)
+		steps, bad := concurrentUse(items)
+		emit("concurrent-use", []byte(fmt.Sprint(len(items))), steps, bad, "concurrent-use")
+	}
 	// (ii') the deeply nested and the very repetitive shapes (the witness families of the cost check), small enough
 	// for every read-only operation to be applied to them
 	for _, sz := range []int{700, 1400, 4000} {
@@ -579,4 +604,102 @@ func mkNetboot4(rng *rand.Rand, k map[string]any) *dhcpv4.DHCPv4 {
 	}
 	p.BootFileName = "pxelinux.0"
 	return p
+}
+
+
+// concurrentUse hands the inputs to a child process (vh concur <file>) and reports how it ended.
+func concurrentUse(items []map[string]any) (steps int, bad []string) {
+	f, err := os.CreateTemp("", "vh-concur-*")
+	if err != nil {
+		panic(err)
+	}
+	defer os.Remove(f.Name())
+	w := bufio.NewWriter(f)
+	for _, it := range items {
+		b, _ := json.Marshal(it)
+		w.Write(b)
+		w.WriteByte('\n')
+	}
+	w.Flush()
+	f.Close()
+	ctx, cancel := context.WithTimeout(context.Background(), 120*time.Second)
+	defer cancel()
+	out, err := exec.CommandContext(ctx, os.Args[0], "concur", f.Name()).CombinedOutput()
+	text := string(out)
+	if err != nil {
+		if i := strings.Index(text, "fatal error"); i >= 0 {
+			text = text[i:]
+		}
+		if len(text) > 700 {
+			text = text[:700]
+		}
+		return len(items), []string{"concurrent read-only use of independently decoded values: " + err.Error() + ": " + strings.Join(strings.Fields(text), " ")}
+	}
+	var r struct{ Steps int; Bad []string }
+	i := strings.LastIndex(text, "RESULT ")
+	if i < 0 || json.Unmarshal(out[i+7:], &r) != nil {
+		return len(items), []string{"concurrent use: unreadable result: " + text[:min(len(text), 300)]}
+	}
+	return r.Steps, r.Bad
+}
+
+// concurMain is the child: for every input, six goroutines decode their own copy and use their own value at once.
+func concurMain(path string) {
+	log.SetOutput(io.Discard)
+	f, err := os.Open(path)
+	if err != nil {
+		panic(err)
+	}
+	sc := bufio.NewScanner(f)
+	sc.Buffer(make([]byte, 1<<20), 1<<24)
+	total := 0
+	var mu sync.Mutex
+	var allBad []string
+	for sc.Scan() {
+		var it struct {
+			Entry string
+			In    []int
+		}
+		if json.Unmarshal(sc.Bytes(), &it) != nil {
+			continue
+		}
+		in := make([]byte, len(it.In))
+		for i, x := range it.In {
+			in[i] = byte(x)
+		}
+		const G = 6
+		var start, done sync.WaitGroup
+		start.Add(1)
+		for g := 0; g < G; g++ {
+			done.Add(1)
+			go func() {
+				defer done.Done()
+				var bad []string
+				steps := 0
+				buf := append([]byte(nil), in...)
+				start.Wait()
+				switch it.Entry {
+				case "v4":
+					if p, err := dhcpv4.FromBytes(buf); err == nil {
+						useV4(p, &bad, &steps)
+					}
+				default:
+					if d, err := dhcpv6.FromBytes(buf); err == nil {
+						useV6(d, &bad, &steps)
+					}
+				}
+				mu.Lock()
+				total += steps
+				if len(allBad) < 5 {
+					allBad = append(allBad, bad...)
+				}
+				mu.Unlock()
+			}()
+		}
+		start.Done()
+		done.Wait()
+	}
+	b, _ := json.Marshal(map[string]any{"Steps": total, "Bad": allBad})
+	os.Stdout.WriteString("RESULT ")
+	os.Stdout.Write(b)
 }
